@@ -53,6 +53,26 @@ func zzArbitraryLedgerStep() (ok bool, err error, cnt, sum int, ns *native.Nativ
 		st[i] = Status(zzsym.U8("status")) // any byte: the decoder accepts every value
 	}
 	zzPutPeerPool(db, 1, st)
+	// PeerPoolItem.Address is the wallet that registered the peer, not necessarily the address of the peer's key:
+	// own wallet each / one operator wallet (member 0's) for all peers / a non-validator wallet for all / rotated.
+	// Validators are identified by their keys; who registered a peer must not matter for the count.
+	if pat := zzsym.Choose("owners", 4); pat != 0 {
+		m := &PeerPoolMap{PeerPoolMap: make(map[string]*PeerPoolItem)}
+		for i := range st {
+			owner := zzValidatorAddr(0)
+			if pat == 2 {
+				owner = zzValidatorAddr(zzOutsider)
+			} else if pat == 3 {
+				owner = zzValidatorAddr((i + 1) % n)
+			}
+			pk := zzValidatorKeyHex[i]
+			m.PeerPoolMap[pk] = &PeerPoolItem{Index: uint32(i + 1), PeerPubkey: pk, Address: owner, Status: st[i]}
+		}
+		sink := common.NewZeroCopySink(nil)
+		m.Serialization(sink)
+		db.Put(utils.ConcatKey(utils.NodeManagerContractAddress, []byte(PEER_POOL), utils.GetUint32Bytes(1)), cstates.GenRawStorageItem(sink.Bytes()))
+		zzsym.Cover("foreign-owner-wallets")
+	}
 
 	method := APPROVE_CANDIDATE
 	input := zzsym.Bytes("request", 8)
